@@ -191,6 +191,19 @@ func runWin(sc WinScenario) (evs []Ev, inconclusive string) {
 		if point == p+".trigdone" { // a completed trigger pass: processed watermark (ticks, rounded down)
 			return Ev{"tr": sc.Tr, "e": "pwm", "wm": floorDiv(a, sc.Cfg.Unit) - sc.Cfg.Base}
 		}
+		if !sc.Free && sc.Cfg.Kind != "session" {
+			// the engine's own state at the model's steps (TraceTumblingImpl / TraceSlidingImpl): reported under the window lock
+			if point == p+".add" { // rows buffered, start of the current slot (ticks; -1: none yet), fired windows kept open for late rows
+				cur := int64(-1)
+				if b != -1 {
+					cur = floorDiv(b, sc.Cfg.Unit) - sc.Cfg.Base
+				}
+				return Ev{"tr": sc.Tr, "e": "h.add", "n": a, "cur": cur, "no": c}
+			}
+			if point == p+".fired" { // the trigger goroutine released the lock for a delivery: end of the fired window, its rows
+				return Ev{"tr": sc.Tr, "e": "h.fired", "end": floorDiv(a, sc.Cfg.Unit) - sc.Cfg.Base, "n": b}
+			}
+		}
 		return nil
 	}
 	s := newInstance(perfOptions(sc.Perf)...)
